@@ -177,6 +177,12 @@ func (h *HistGen) Leaf() J {
 	case 5:
 		return J{"fn": h.G.pick(4)}
 	case 6:
+		if h.G.pick(4) == 0 {
+			return J{"or": []interface{}{J{"cmp": []interface{}{"eq", f, J{"lit": nil}}}, J{"not": J{"exists": f}}}} // IsNilOrNotExists
+		}
+		if h.G.pick(4) == 0 {
+			return J{"cmp": []interface{}{"eq", f, J{"lit": encValue([]interface{}{true, false}[h.G.pick(2)])}}} // IsTrue / IsFalse
+		}
 		return J{"not": J{"cmp": []interface{}{"eq", f, h.operand()}}} // Neq
 	}
 	ops := []string{"eq", "gt", "ge", "lt", "le"}
